@@ -1732,8 +1732,15 @@ void Validator::ValidatorImpl::validateAndCleanCnNode(const XmlNodePtr &node, co
 
 void Validator::ValidatorImpl::validateAndCleanCiNode(const XmlNodePtr &node, const ComponentPtr &component, const NameList &variableNames)
 {
-    XmlNodePtr childNode = node->firstChild();
-    std::string textInNode = text(childNode);
+    // The identifier is the only child that is not a comment (comments may precede it); it is character data, i.e. a
+    // text node or a (nameless) CDATA section.
+    std::string textInNode;
+    if (nonCommentChildCount(node) == 1) {
+        auto childNode = nonCommentChildNode(node, 0);
+        if (childNode->isText() || childNode->name().empty()) {
+            textInNode = childNode->convertToStrippedString();
+        }
+    }
     if (!textInNode.empty()) {
         // Check whether we can find this text as a variable name in this component.
         if (std::find(variableNames.begin(), variableNames.end(), textInNode) == variableNames.end()) {
